@@ -87,6 +87,76 @@ func init() {
 			}
 			return x.ts.BV(64, kindOf(rv.I.T))
 		},
+		"(reflect.Value).Len": func(x *Exec, fr *frame, fn *ssa.Function, a []Value) Value {
+			rv, ok := a[0].(ReflectV)
+			if !ok || rv.I.T == nil {
+				x.tpanic("reflect: call of reflect.Value.Len on zero Value")
+			}
+			switch v := rv.I.V.(type) {
+			case *MapObj:
+				if v == nil {
+					return x.ts.BV(64, 0)
+				}
+				x.forceMapSize(v)
+				return x.ts.BV(64, uint64(len(v.Entries)))
+			case Slice:
+				return x.ts.BV(64, uint64(v.Len))
+			case Str:
+				return x.ts.BV(64, uint64(len(v.B)))
+			case ArrayV:
+				return x.ts.BV(64, uint64(len(v)))
+			}
+			x.tpanic("reflect: call of reflect.Value.Len on a value without a length")
+			return nil
+		},
+		// map walking by reflection (keys of string-keyed maps; the order is the engine's map order)
+		"(reflect.Value).MapKeys": func(x *Exec, fr *frame, fn *ssa.Function, a []Value) Value {
+			rv, ok := a[0].(ReflectV)
+			m, isMap := rv.I.V.(*MapObj)
+			if !ok || !isMap {
+				x.unsupported("reflect.Value.MapKeys on a value that is not a map")
+			}
+			if m == nil {
+				return Slice{}
+			}
+			x.forceMapSize(m)
+			mt, _ := rv.I.T.Underlying().(*types.Map)
+			arr := x.newArr(len(m.Entries))
+			for i, e := range m.Entries {
+				var kt types.Type = x.eng.stringType
+				if mt != nil {
+					kt = mt.Key()
+				}
+				arr.E[i] = ReflectV{Iface{T: kt, V: e.K}}
+			}
+			return Slice{A: arr, Len: len(m.Entries), Cap: len(m.Entries)}
+		},
+		"(reflect.Value).MapIndex": func(x *Exec, fr *frame, fn *ssa.Function, a []Value) Value {
+			rv, ok := a[0].(ReflectV)
+			m, isMap := rv.I.V.(*MapObj)
+			kv, ok2 := a[1].(ReflectV)
+			if !ok || !isMap || !ok2 {
+				x.unsupported("reflect.Value.MapIndex on a value that is not a map")
+			}
+			v, has := x.mapLookup(m, kv.I.V)
+			if !has {
+				return ReflectV{}
+			}
+			mt, _ := rv.I.T.Underlying().(*types.Map)
+			if mt != nil {
+				if _, isIface := mt.Elem().Underlying().(*types.Interface); !isIface {
+					return ReflectV{Iface{T: mt.Elem(), V: v}}
+				}
+			}
+			return ReflectV{x.asIface(v)}
+		},
+		"(reflect.Value).Interface": func(x *Exec, fr *frame, fn *ssa.Function, a []Value) Value {
+			rv, ok := a[0].(ReflectV)
+			if !ok || rv.I.T == nil {
+				return Iface{}
+			}
+			return rv.I
+		},
 		"(reflect.Value).IsValid": func(x *Exec, fr *frame, fn *ssa.Function, a []Value) Value {
 			rv, ok := a[0].(ReflectV)
 			return x.ts.Bool(ok && rv.I.T != nil)
